@@ -1,4 +1,4 @@
 #!/bin/bash
 # usage: check.sh <property> <quick|thorough>
-cd /verif
+cd "$(dirname "$(readlink -f "$0")")"
 exec ./bin/vcheck run "$1" --tier "${2:-quick}"
